@@ -77,7 +77,11 @@ def rand_mdp(rng, *, n_na, n_abs, K, PD=2, GN=1, GD=2, rewards=(-2, -1, 0, 1, 2)
                 P[s][a][s] = PD
                 continue
             if implicit:
+                # self-loop with reward 0; rewards attached to the zero-probability successors are ghosts
                 P[s][a][s] = PD
+                for t in range(N):
+                    if t != s:
+                        R[s][a][t] = rng.choice(rewards)
                 continue
             row = rand_row(rng, N, PD)
             if force_progress and s not in abs_states:
